@@ -401,17 +401,20 @@ PREG = ["p", "q"]
 DSL_ARENA = 0x3000
 
 
-def gen_dsl(rnd):
+def gen_dsl(rnd, memheavy=False):
     prog = []
     for _ in range(rnd.randrange(2, 9)):
         k = rnd.random()
+        if memheavy:
+            # store/load dominated programs: repeated stores through the same and the other pointer
+            k = 0.3 * k if k < 0.3 else (0.72 + (k - 0.3) * 0.4)
         if k < 0.62:
-            op = ["+", "-", "+", "-", "&", "|", "^", "*", "<<", ">>"][rnd.randrange(10)]
+            op = ["+", "-", "+", "-", "&", "|", "^", "*", "<<", ">>", ".>>"][rnd.randrange(11)]
             dst = DREG[rnd.randrange(4)]
             s1 = DREG[rnd.randrange(4)]
-            if rnd.random() < 0.5 or op in ("<<", ">>"):
+            if rnd.random() < 0.5 or op in ("<<", ">>", ".>>"):
                 s2 = ["imm", [1, 4, 8, 0xFF, 0x80000000, rnd.getrandbits(32), rnd.getrandbits(5)][rnd.randrange(7)]]
-                if op in ("<<", ">>"):
+                if op in ("<<", ">>", ".>>"):
                     s2 = ["imm", rnd.randrange(0, 34)]
             else:
                 s2 = ["reg", DREG[rnd.randrange(4)]]
@@ -451,6 +454,8 @@ def dsl_apply(m, prog):
                 r = x * y
             elif op == "<<":
                 r = x << y
+            elif op == ".>>":
+                r = E.oper(E.OP_ASR, x, y)
             else:
                 r = x >> y
             m[R_[dst]] = r
@@ -551,7 +556,7 @@ def run_dsl(shard, tier, seed, part):
     from hypothesis import strategies as st
 
     def body(rnd):
-        prog = gen_dsl(rnd)
+        prog = gen_dsl(rnd, memheavy=shard["sub"] >= 2)
         base = DSL_ARENA + 0x40
         pq = [(base, base + 0x40), (base, base), (base, base + 4), (base + 8, base)][rnd.randrange(4)]
         regs = {n: [0, 1, 0xFFFFFFFF, 0x80000000, rnd.getrandbits(32)][rnd.randrange(5)] for n in DREG}
